@@ -149,7 +149,8 @@ def python_expected(items):
 
 ITEMS = {"join": b"JOIN_SAME_ENTRIES=1", "python": b"PYTHON_STYLE=1"}
 UNKNOWN = [b"FOO=1", b"join_same_entries=1", b"PYTHON_STYLE", b"JOIN_SAME_ENTRIES", b"PARSING_DIR=/a", b"ROOTPREFIX=/r",
-           b"CONFIG_DIRS", b"PYTHON_STYLE=2", b"X", b" JOIN_SAME_ENTRIES=1"]
+           b"CONFIG_DIRS", b"PYTHON_STYLE=2", b"X", b" JOIN_SAME_ENTRIES=1",
+           b"", b""]     # an empty item (a `;` at the end, at the start, or two in a row) is no documented item either
 
 
 def option_make(rng, sid):
@@ -162,6 +163,8 @@ def option_make(rng, sid):
         if r < 0.12 and unknown_at is None:
             parts.append(rng.choice(UNKNOWN))
             unknown_at = i
+            if parts == [b""]:
+                parts.append(ITEMS["join"])      # (the empty string as a whole is a valid option string: no items)
             break
         kind = rng.choice(["join", "python", "pdirs", "cdirs", "root"])
         if kind in ITEMS:
@@ -170,7 +173,8 @@ def option_make(rng, sid):
             d = [rng.choice([b"/a", b"/usr/etc", b"/b/c", b"/etc"]) for _ in range(rng.randint(1, 4))]
             parts.append(b"PARSING_DIRS=" + b":".join(d)); exp["pdirs"] = d
         elif kind == "cdirs":
-            d = [rng.choice([b".d", b"/conf.d", b".conf.d", b"/"]) for _ in range(rng.randint(1, 3))]
+            # (an empty postfix is the plain directory <dir>/<name>/ and stays in the list)
+            d = [rng.choice([b".d", b"/conf.d", b".conf.d", b"/", b""]) for _ in range(rng.randint(1, 3))]
             parts.append(b"CONFIG_DIRS=" + b":".join(d)); exp["cdirs"] = d
         else:
             d = rng.choice([b"/rt", b"/tmp/root", b"/"])
